@@ -171,6 +171,16 @@ impl StructureMember {
             .address
             .map(|addr| (addr as isize + offset) as usize);
 
+        #[cfg(feature = "verif")]
+        crate::verif::probe::check(
+            "type::StructureMember::value",
+            base_data.raw_data.len(),
+            if offset < 0 {
+                usize::MAX
+            } else {
+                (offset as usize).saturating_add(type_size)
+            },
+        );
         let raw_data = Bytes::from(unsafe { std::slice::from_raw_parts(addr, type_size) });
 
         Some(ObjectBinaryRepr {
